@@ -4,6 +4,9 @@ use crate::engine::{Ctx, Verdict};
 use serde_json::Value;
 
 pub mod c01;
+pub mod c03;
+pub mod c04;
+pub mod c05;
 pub mod c10;
 
 pub const ALL: &[&str] = &[
@@ -18,6 +21,9 @@ pub fn needs_cli(id: &str) -> bool {
 pub fn run(ctx: &mut Ctx) -> bool {
     match ctx.id.as_str() {
         "C01" => c01::run(ctx),
+        "C03" => c03::run(ctx),
+        "C04" => c04::run(ctx),
+        "C05" => c05::run(ctx),
         "C10" => c10::run(ctx),
         _ => return false,
     }
@@ -28,6 +34,9 @@ pub fn replay(id: &str, sub: &str, case: &Value, ctx: &Ctx) -> Option<Verdict> {
     let _ = ctx;
     match id {
         "C01" => c01::replay(sub, case),
+        "C03" => c03::replay(sub, case),
+        "C04" => c04::replay(sub, case),
+        "C05" => c05::replay(sub, case),
         "C10" => c10::replay(sub, case),
         _ => None,
     }
